@@ -37,6 +37,10 @@ pub fn oracle(case: &SpCase, res: &SpResult, soft: &mut Vec<(String, String)>) -
     let app_write_times: BTreeSet<u64> = res.app.iter().filter(|a| matches!(a.ev, crate::sim::app::AppEv::Wrote(_))).map(|a| a.t_us).collect();
 
     let mut t_arm_next: Option<u64> = None;
+    // (instant, number of peer packets delivered at it, seq of the last one if it carried data)
+    let mut rx_now: (u64, u32, Option<u16>) = (u64::MAX, 0, None);
+    // ack_nr of the socket's own packets: (last value emitted before the current instant, current instant, latest value)
+    let mut own_ack: (Option<u16>, u64, Option<u16>) = (None, u64::MAX, None);
     for ev in sp::events(res) {
         let t_ev = match &ev { Ev::Rx(r, _) | Ev::Tx(r, _) => r.t_us };
         if let Some(a) = t_arm_next { if t_ev > a { t_arm_latest = Some(t_arm_latest.map_or(a, |x| x.max(a))); t_arm_next = None; } }
@@ -47,6 +51,8 @@ pub fn oracle(case: &SpCase, res: &SpResult, soft: &mut Vec<(String, String)>) -
                 handshake_done = true;
                 obs.on_rx(r.t_us, p);
                 last_rx_t = Some(r.t_us);
+                if rx_now.0 == r.t_us { rx_now.1 += 1; } else { rx_now = (r.t_us, 1, None); }
+                rx_now.2 = if p.ptype == refparse::ST_DATA { Some(p.seq) } else { None };
                 if obs.st.t_last_advance == r.t_us { t_arm_latest = Some(r.t_us); }
                 if obs.st.poss_recovery { labels.insert("possible_recovery"); }
                 if obs.st.poss_loss_event { loss_seen = true; labels.insert("possible_loss_event"); }
@@ -65,8 +71,17 @@ pub fn oracle(case: &SpCase, res: &SpResult, soft: &mut Vec<(String, String)>) -
             }
             Ev::Tx(r, p) => {
                 if p.conn_id != res.id_to_peer || !handshake_done { continue; }
+                if own_ack.1 != r.t_us { own_ack = (own_ack.2, r.t_us, own_ack.2); }
+                let ack_before_instant = own_ack.0;
+                own_ack.2 = Some(p.ack);
                 if p.ptype != refparse::ST_DATA { continue; }
                 let ambiguous = last_rx_t == Some(r.t_us);
+                // (K1 sharpened) the one peer packet of this instant was a data packet and this emission acknowledges it,
+                // which nothing emitted before this instant did: the packet — acknowledgement, window and all — has been
+                // processed, the emission is a reaction to it
+                let processed = ambiguous && rx_now.0 == r.t_us && rx_now.1 == 1 && rx_now.2 == Some(p.ack) && ack_before_instant != Some(p.ack);
+                if processed { labels.insert("reaction_to_peer_data_proven"); }
+                let two_states = ambiguous && !processed;
                 // emitted at an instant with neither a peer packet nor an application write:
                 // only a timer can have caused it
                 // ... and it may have caused it when a stimulus happens to fall on the very instant the retransmission
@@ -82,7 +97,7 @@ pub fn oracle(case: &SpCase, res: &SpResult, soft: &mut Vec<(String, String)>) -
                 let highest_before = obs.highest;
                 let mut loss_seen_next = false;
                 let (k, kind) = obs.on_tx_data(r.t_us, p);
-                let states: Vec<AckState> = if ambiguous { vec![obs.st.clone(), obs.prev.clone()] } else { vec![obs.st.clone()] };
+                let states: Vec<AckState> = if two_states { vec![obs.st.clone(), obs.prev.clone()] } else { vec![obs.st.clone()] };
                 // clause (d): after an RTO retransmission nothing else until an advancing ack
                 if let Some((rk, _)) = rto_pending {
                     let resegmented = obs.segs.get(&k).is_some_and(|g| g.lens.len() >= 2 && g.lens[g.lens.len() - 1] != g.lens[g.lens.len() - 2]);
